@@ -170,12 +170,21 @@ def exp_desc(k):
         elif k == 9:
             m.st(rso.exp(x[0:2]).sum() <= x[2], x[0] - x[1] == 0.5, x[0] >= -1)
             m.min(x[2] - x[1])
+        elif k in (10, 11, 12):
+            # robust model: second-order cones on the multipliers of a ball set (identity form for a plain ball, general
+            # form for a scaled one) TOGETHER with exponential cones
+            x4 = m.dvar(4)
+            z = m.rvar(2)
+            A = {10: np.eye(2), 11: np.diag([2.0, 1.0]), 12: np.array([[1.0, 0.5], [0.0, 2.0]])}[k]
+            m.minmax(np.array([-2.0, -1.0, 0, 0]) @ x4 + z @ x4[:2], rso.norm(A @ z) <= 1)
+            m.st(rso.exp(x4[0]) <= (2.0 if k == 10 else 0.25))
+            m.st(rso.norm(x4, 1) <= 2.0)
         return m
     return build
 
 
-EXP_QUICK = [0, 1, 2, 3, 4, 5, 6]
-EXP_ALL = list(range(10))
+EXP_QUICK = [0, 1, 2, 3, 4, 5, 6, 10, 11, 12]
+EXP_ALL = list(range(13))
 
 
 def soc_paired(P, D):
